@@ -193,6 +193,8 @@ def block_mutations(spec):
         out['sigops=%d:coinbase_output' % total] = (lambda s, t=total: s['txs'][0]['vout'].append({'value': 0, 'script': b'\xac' * min(t, 9000)}) or
                                                     s['txs'][0]['vout'].append({'value': 0, 'script': b'\xac' * min(max(t - 9000, 0), 9000)}) or
                                                     s['txs'][0]['vout'].append({'value': 0, 'script': b'\xac' * max(t - 18000, 0)}) or s)
+        out['sigops=%d:one_of_one_multisigs' % total] = (lambda s, t=total: s['txs'][0]['vout'].append({'value': 0, 'script': b'\x51\xae' * 450}) or
+                                                         s['txs'][0]['vout'].append({'value': 0, 'script': b'\x51\xae' * ((t - 9000) // 20 - 0) + b'\xac' * ((t - 9000) % 20)}) or s)
         if n > 1:
             out['sigops=%d:split' % total] = (lambda s, t=total: s['txs'][1]['vin'][0].update(script=b'\xac' * 5000) or
                                               s['txs'][1]['vout'].append({'value': 0, 'script': b'\xad' * 5000}) or
@@ -293,25 +295,47 @@ def build_block(spec):
     return b
 
 
-def lib_check_block(b, spec):
+def lib_check_block(b, spec, deep=True):
     from bitcoin.core import CBlock, CheckBlock, ValidationError
     blk = CBlock.deserialize(W.encode_block(b))
-    try:
-        CheckBlock(blk, fCheckPoW=spec['check_pow'], cur_time=spec.get('cur_time', CUR_TIME))
-        return ('ok',)
-    except ValidationError as e:
-        return ('reject', type(e).__name__)
-    except Exception as e:  # noqa
-        return ('EXC', '%s: %s' % (type(e).__name__, str(e)[:80]))
+    # ordinary use of equal values before the check (a caller that looks at the scripts first): accurate and legacy
+    # sig-op counts and validity of every output / input script, on separate objects with the same bytes
+    from bitcoin.core.script import CScript
+    seen = set()
+    for t in (b['vtx'] if deep else ()):
+        for sc in [o['script'] for o in t['vout']] + [i['script'] for i in t['vin']]:
+            if sc in seen or len(sc) < 2:
+                continue
+            seen.add(sc)
+            try:
+                x = CScript(sc)
+                x.GetSigOpCount(True)
+                x.is_valid()
+            except Exception:  # noqa
+                pass
+
+    def once():
+        try:
+            CheckBlock(blk, fCheckPoW=spec['check_pow'], cur_time=spec.get('cur_time', CUR_TIME))
+            return ('ok',)
+        except ValidationError as e:
+            return ('reject', type(e).__name__)
+        except Exception as e:  # noqa
+            return ('EXC', '%s: %s' % (type(e).__name__, str(e)[:80]))
+    r1 = once()
+    r2 = once() if deep else r1
+    if r1 != r2:
+        return ('EXC', 'second CheckBlock of the same block object answers %r after %r' % (r2, r1))
+    return r1
 
 
-def judge_block(spec, label):
+def judge_block(spec, label, deep=True):
     C.select(spec['chain'])
     b = build_block(spec)
     want = R.check_block(b, RC.POW_LIMIT[spec['chain']], spec.get('cur_time', CUR_TIME), spec['check_pow'])
     if want == 'DONTCARE':
         return 'dontcare', False
-    got = lib_check_block(b, spec)
+    got = lib_check_block(b, spec, deep)
     if got[0] == 'EXC':
         cls = None
         if 'IndexError' in got[1]:
@@ -366,10 +390,12 @@ class BlockRules(Family):
                     spec = muts[n](spec)
                 except (IndexError, KeyError):
                     pass        # the first entry removed what the second one edits: the pair degenerates to the first
-        return judge_block(spec, '%s: %s' % (kind, '+'.join(names) or 'base'))[0], bool(names)
+        # single entries: scripts inspected beforehand and the block checked twice; pairs: one plain check
+        return judge_block(spec, '%s: %s' % (kind, '+'.join(names) or 'base'), deep=len(names) <= 1)[0], bool(names)
 
 
 class BlockLimits(Family):
+    no_history_pool = True       # cases are too heavy to be replayed in every ordered pair
     name = 'block_size_and_weight_limits'
     engine = 'E3'
     nontrivial_rule = 'every case (size or weight within one unit of its limit)'
